@@ -165,18 +165,24 @@ theorem parseDataO_W (k : Kcp) (s : Seg) (rb rq : List SegO) (g : Ghost) (F : Na
 
 /-! ### flush -/
 
-theorem useUnacked_W (l : List SegO) (g : Ghost) (F : Nat → Nat) (h : W g (fun id => cnt id l + F id)) :
-    W (useUnacked l g) (fun id => cnt id l + F id) := by
+theorem useSent_W (k : Kcp) (now : U32) (c : Nat) (l : List SegO) (g : Ghost) (F : Nat → Nat)
+    (h : W g (fun id => cnt id l + F id)) : W (useSent k now c l g) (fun id => cnt id l + F id) := by
   induction l generalizing g F with
   | nil => exact h
   | cons x rest ih =>
-    unfold useUnacked
+    unfold useSent
     have h1 : W g (fun id => oc x.buf id + (cnt id rest + F id)) :=
       h.congr (fun id => by simp only [cnt]; omega)
-    have h2 : W (if x.s.acked then g else g.use x.buf) (fun id => cnt id rest + (oc x.buf id + F id)) := by
+    have h2 : W (if x.s.acked = false ∧ (xmitDec k now (resentOf k) c x.s).1 = true then g.use x.buf else g)
+        (fun id => cnt id rest + (oc x.buf id + F id)) := by
       split
-      · exact h1.congr (fun id => by omega)
       · exact h1.use.congr (fun id => by omega)
+      · exact h1.congr (fun id => by omega)
     exact (ih _ _ h2).congr (fun id => by simp only [cnt]; omega)
+
+theorem reattach_length (new : List Seg) (old : List SegO) (h : new.length = old.length) :
+    (reattach new old).length = old.length := by
+  unfold reattach
+  rw [List.length_zipWith, h, Nat.min_self]
 
 end KcpVerif.Own
